@@ -18,7 +18,7 @@ SubBits == {BitsOf(T) : T \in SUBSET Irqs}
 
 PC0 == 4660   SP0 == 4096
 Core0 == [r |-> [ResetRegs EXCEPT !.pc = PC0, !.sp = SP0], mem |-> [a \in {} |-> 0], io |-> [a \in {} |-> 0], acc |-> <<>>,
-          out |-> "ok", idle |-> FALSE, lat |-> <<0, 0, 0, 0>>, vaddr |-> 0, vctx |-> 0, miu |-> [base |-> 32768, z |-> 0]]
+          out |-> "ok", idle |-> FALSE, lat |-> <<0, 0, 0, 0>>, vaddr |-> 0, vctx |-> 0, miu |-> MiuReset]
 Y == [c |-> vC, icu |-> vIcu]
 
 Init == /\ vC = Core0 /\ vIcu = IcuReset /\ vOwed = <<FALSE, FALSE, FALSE, FALSE>> /\ vLast = <<"init", 0>>
